@@ -8,6 +8,7 @@ open SdnsVerif.Model SdnsVerif.Model.Bailiwick SdnsVerif.Model.Util
 
 structure State where
   locals : List IP := []
+  deleg : DelegState := {}
 
 def str (s : String) : Str := s.toList
 def unstr (s : Str) : String := String.ofList s
@@ -189,6 +190,31 @@ def step (st : State) (w : List String) : State × String :=
     match (listOf answers ";").mapM parseAns with
     | some as => (st, "keep=" ++ dash (keptIdx (fun r => nameInZone (lower r.owner) (lower (str zone))) as))
     | none => (st, "bad-op")
+  | ["deleg", "new"] => ({ st with deleg := {} }, "ok")
+  | ["deleg", "ref", auth, level, qname, qclass, ns, extras, subs] =>
+    let subP : Option (List (Str × Option (List AddrRR))) := (listOf subs "|").mapM fun e =>
+      match e.splitOn "=" with
+      | [name, val] =>
+        if val == "F" then some (lower (str name), none)
+        else if val.startsWith "R" then
+          let body := ((val.drop 1).toString.dropWhile (· == ':')).toString
+          ((listOf body "+").mapM parseExtra).map fun es =>
+            (lower (str name), some (es.map fun x => ({ owner := x.owner, rtype := x.rtype, addr := x.addr } : AddrRR)))
+        else none
+      | _ => none
+    match level.toNat?, qclass.toNat?, (listOf ns ";").mapM parseAuth, (listOf extras ";").mapM parseExtra, subP with
+    | some level, some qclass, some rrs, some es, some sb =>
+      -- the first entry for a host counts
+      let sb1 := sb.foldl (fun acc p => if acc.any (fun q => q.1 == p.1) then acc else acc ++ [p]) []
+      let (d, res) := delegStep st.locals st.deleg
+        { authZone := str auth, level := level, qname := str qname, qclass := qclass, ns := rrs, extras := es, subs := sb1 }
+      let fmt (l : List (Str × List IP)) (sortAddrs : Bool) : String :=
+        let keys := sortUniq (l.map fun p => unstr p.1)
+        dash (keys.map fun k =>
+          let addrs := ((getKey l (str k)).getD []).map bytesHex
+          k ++ "=" ++ "+".intercalate (if sortAddrs then sortUniq addrs else addrs))
+      ({ st with deleg := d }, s!"res={res} d={fmt d.delegs true} g={fmt d.glue4 false}")
+    | _, _, _, _, _ => (st, "bad-op")
   | ["nslookup", "run", v6, level, qname, hosts, extras, host, v6lookup, sub] =>
     let subP : Option (Option (List AddrRR)) :=
       if sub == "F" then some none
